@@ -54,7 +54,7 @@ def run(c):
     samples, proto = L.sample_lines(impl)
     for ln, exp, f in samples:
         cases.append((ln, "sample-" + exp, {"file": f}))
-    cases += L.build_cases(c, impl, 500 if c.thorough else 60)
+    cases += L.build_cases(c, impl, 400 if c.thorough else 40)
     # 1. verdicts (model vs code)
     res = c.tie("verdict", [l for l, _, _ in cases], impl, model)
     accepted = []
